@@ -98,8 +98,13 @@ def run_compdec(sx, cfg, env):
         rp = odxref.Pdu()
         renv = {"const_bits": {}}
         _cp.ref_params(rp, 0, 0, spec["params"], _plain(res), True, renv)
-    except (odxref.Reject, KeyError, TypeError, IndexError, AttributeError, ValueError):
+    except (odxref.Reject, KeyError, TypeError, IndexError, AttributeError, ValueError) as e:
         sx.cover("reference-cannot-lay-out")
+        if cfg["name"] in STRICT_SHAPE and (isinstance(e, KeyError) or (
+                isinstance(e, odxref.Reject) and "required parameter" in str(e))):
+            # the returned dictionary lacks a parameter that the description prescribes for the
+            # selector value it returned next to it (environment data chosen by another DTC)
+            sx.fail("returned-structure-fits-the-returned-selector")
         return
     if rp.overlap or cfg["name"] in ("overlap", "overlap-three"):
         return
@@ -113,6 +118,11 @@ def run_compdec(sx, cfg, env):
         m = rp.mask[i] & ~renv["const_bits"].get(i, 0) & 0xFF
         if m:
             sx.require((msg[i] & m) == (rp.bytes[i] & m), "returned-values-are-what-the-bytes-say")
+
+
+# descriptions for which the reference lays out EVERY dictionary the decoder may return (no
+# defaults, no optional keys): a missing key there is a finding, not a limit of the reference
+STRICT_SHAPE = ("env-data-in-field", "env-data-no-common", "env-data-then-structure")
 
 
 def _plain(v):
